@@ -155,10 +155,10 @@ class Check:
         per_rule_seen = {}
         for i in instances:
             c = per_rule_seen.get(i["rule"], 0)
-            if c < 4:
+            if c < 80:
                 samples.append(i)
                 per_rule_seen[i["rule"]] = c + 1
-        samples = samples[:120]
+        samples = samples[:600]
         ev = {
             "property_id": self.prop,
             "tier": self.tier,
